@@ -106,6 +106,7 @@ fn main() {
             let seed: u64 = arg_after(&args, "--seed").and_then(|s| s.parse().ok()).unwrap_or(0);
             c12::featdigest(tier, seed);
         }
+        "case" => isolated_child(&args[2], replay_dispatch),
         "replay" => {
             let text = std::fs::read_to_string(&args[2]).unwrap_or_else(|_| machinery_error("cannot read replay file"));
             let rec: serde_json::Value = serde_json::from_str(&text).unwrap_or_else(|_| machinery_error("replay file is not JSON"));
